@@ -49,7 +49,11 @@ def run(prog, tier):
                                  "drops it when one sample is retained", c.module.relpath, fn.lineno))
 
     c, gi = prog.method("MarkovChain", "get_interval")
-    obs.extend(_parallel(prog, c, gi))
+    deferred = None
+    try:
+        obs.extend(_parallel(prog, c, gi))
+    except AnalysisError as e:
+        deferred = e          # raised at the end unless another rule reports a definite violation (a verdict beats "not understood")
 
     # the columns the read-outs pair up row by row grow together: nothing that runs user code sits between the stores of one step
     for cname in ("MetropolisChain", "GibbsChain", "PcaChain", "HamiltonianChain"):
@@ -101,6 +105,8 @@ def run(prog, tier):
         "assumptions": ["numpy/list slicing semantics"],
         "info": info,
     }
+    if deferred is not None and all(o.ok for o in obs):
+        raise deferred
     return obs, FLOORS, meta
 
 
